@@ -20,6 +20,7 @@ import (
 	"go/parser"
 	"go/printer"
 	"go/token"
+	"go/types"
 	"os"
 	"path/filepath"
 	"strings"
@@ -29,12 +30,12 @@ import (
 )
 
 type Clause struct {
-	Kind  string // requires, ensures, modifies, invariant
-	Text  string
-	Label string
+	Kind   string // requires, ensures, modifies, invariant
+	Text   string
+	Label  string
 	FnName string // generated predicate function
-	Fn    *ssa.Function
-	Line  int
+	Fn     *ssa.Function
+	Line   int
 }
 
 type CParam struct {
@@ -43,28 +44,29 @@ type CParam struct {
 }
 
 type Contract struct {
-	Key      string // fnKey: z80.(*CPU).fetchM1
-	PkgDir   string
-	PkgName  string
-	Header   string
-	Params   []CParam // receiver first
-	Results  []CParam
-	Requires []*Clause
-	Ensures  []*Clause
-	Modifies []*Clause
-	Layer    string
-	Inline   bool
-	Counts   string
+	Key             string // fnKey: z80.(*CPU).fetchM1
+	PkgDir          string
+	PkgName         string
+	Header          string
+	Params          []CParam // receiver first
+	Results         []CParam
+	Requires        []*Clause
+	Ensures         []*Clause
+	Modifies        []*Clause
+	Layer           string
+	Inline          bool
+	Counts          string
 	FrameDischarged bool // only the frame (modifies) was discharged in this run: usable without its ensures
-	Props    []string
-	Line     int
-	id       string
+	Props           []string
+	Line            int
+	id              string
 
-	Fn         *ssa.Function
+	Fn             *ssa.Function
 	DischargedBits map[string]bool // [diff] contracts: components discharged in this run (with the frame)
-	Discharged bool   // set by the helper-layer pass of this run
-	Status     string // "", "discharged", "failed", "unverified"
-	Loops      map[int]*LoopSpec
+	Discharged     bool            // set by the helper-layer pass of this run
+	Status         string          // "", "discharged", "failed", "unverified"
+	Loops          map[int]*LoopSpec
+	ifaceTypes     map[string]types.Type // replay: dynamic types the code asserts on interface parameters
 }
 
 func (c *Contract) Usable() bool {
@@ -73,8 +75,8 @@ func (c *Contract) Usable() bool {
 
 type LoopSpec struct {
 	Ordinal    int
-	Vars       []CParam  // header phis exposed to the invariant: name type (phi comment)
-	VarPhi     []string  // phi comment names matching Vars
+	Vars       []CParam // header phis exposed to the invariant: name type (phi comment)
+	VarPhi     []string // phi comment names matching Vars
 	Invariants []*Clause
 	Modifies   []*Clause
 	Decreases  *Clause
@@ -448,4 +450,41 @@ func (cf *ContractFile) generate(ghostInPkg bool) (string, error) {
 		}
 	}
 	return sb.String(), nil
+}
+
+// hasAux: does a loop of the contract have an invariant labelled [aux]?
+func (c *Contract) hasAux() bool {
+	for _, lp := range c.Loops {
+		for _, cl := range lp.Invariants {
+			if cl.Label == "aux" {
+				return true
+			}
+		}
+	}
+	return false
+}
+
+// maintenanceGoal: is the named goal "invariant holds on entry / is preserved"
+// (or the loop frame) of an invariant that is not labelled [property]?
+func (c *Contract) maintenanceGoal(name string) bool {
+	k := strings.Index(name, "/loop#")
+	if k < 0 {
+		return false
+	}
+	rest := name[k+len("/loop#"):]
+	var ord, inv int
+	var kind string
+	if n, _ := fmt.Sscanf(rest, "%d/entry#%d", &ord, &inv); n == 2 {
+		kind = "inv"
+	} else if n, _ := fmt.Sscanf(rest, "%d/preserve#%d", &ord, &inv); n == 2 {
+		kind = "inv"
+	}
+	if kind == "" {
+		return true // loop frame
+	}
+	lp := c.Loops[ord]
+	if lp == nil || inv >= len(lp.Invariants) {
+		return false
+	}
+	return lp.Invariants[inv].Label != "property"
 }
